@@ -52,6 +52,7 @@ let gen ~(tier : string) ~(seed : int) ~(emit : Sexp.t -> unit) : unit =
     let size = 3 + Rng.int r (if Rng.chance r 1 8 then 150 else 40) in
     let p = Gen_prog.program r m t size in
     emit (case_pipe (Gen_prog.to_string p));
+    if i mod 8 = 0 then emit (case_pipe (Gen_prog.confusable r));
     (* a misordered variant: accepted only if the later definition is a value (D7), otherwise it must be rejected *)
     if i mod 3 = 0 then begin
       let q = Gen_prog.misorder r p in
